@@ -3,7 +3,8 @@ import NimaVerif.Model.DataReader
 /-!
 SPEC (C13): what a Python value denotes as data (`denote`), what each container context is expected
 to read back as (`expected`, `readCtx`), the property's domain (`valInDomain`, `ctxInDomain`) and the
-decidable side condition under which the code does keep the value (`…Readable`).
+decidable side condition under which the code does keep the value (`…Readable`; every value of the
+domain satisfies it), and the data the API must refuse (`dataOutOfRange`).
 -/
 namespace Nima
 
@@ -95,7 +96,7 @@ mutual
 def elemInDomain : Elem → Bool
   | .none => true
   | .bool _ => true
-  | .int _ => true
+  | .int i => i.natAbs ≤ nixIntMax
   | .float r => isPyFloatRepr r
   | .str s => !hasInterp s
   | .list xs => elemsInDomain xs
@@ -107,7 +108,9 @@ end
 def dictKeys (kvs : List (Text × PyVal)) : List Text := kvs.map (·.1)
 
 mutual
-/-- identifier keys (not keywords), pairwise distinct; strings without `${`; floats are reprs -/
+/-- identifier keys (not keywords), pairwise distinct; strings without `${`; floats are reprs;
+    integers are those Nix can write (an integer beyond 64 bits is outside the domain: the
+    construction API refuses it with `ValueError`, `C13.refusal_exact`) -/
 def valInDomain : PyVal → Bool
   | .elem e => elemInDomain e
   | .dict kvs => keysNodup (kvs.map (·.1)) && kvsInDomain kvs
@@ -175,40 +178,22 @@ def ctxReadable : Ctx → Bool
   | .setItem d k v => valReadable (.dict d) && isDataKey k && valReadable v
   | .setItemOn d _ k v => valReadable (.dict d) && isDataKey k && valReadable v
 
-/-! ## The documented defect that remains, named directly
+/-! ## What must be refused
 
-For values of the domain, `…Readable` is equivalent to avoiding it (`Lemmas/Value.lean`,
-`readable_eq_avoids`): no integer outside 64 bits. The harness classifies failing inputs with the
-same test. -/
+Data holding an integer Nix has no literal for (magnitude above `2^63 - 1`). -/
 
 mutual
-def elemAvoids : Elem → Bool
-  | .none => true
-  | .bool _ => true
-  | .int i => i.natAbs ≤ nixIntMax
-  | .float _ => true
-  | .str _ => true
-  | .list xs => elemsAvoid xs
-def elemsAvoid : List Elem → Bool
-  | [] => true
-  | x :: xs => elemAvoids x && elemsAvoid xs
+def dataOutOfRange : Data → Bool
+  | .int i => i.natAbs > nixIntMax
+  | .list xs => dataListOutOfRange xs
+  | .attrs kvs => dataKvsOutOfRange kvs
+  | _ => false
+def dataListOutOfRange : List Data → Bool
+  | [] => false
+  | x :: xs => dataOutOfRange x || dataListOutOfRange xs
+def dataKvsOutOfRange : List (Text × Data) → Bool
+  | [] => false
+  | (_, v) :: rest => dataOutOfRange v || dataKvsOutOfRange rest
 end
-
-mutual
-def valAvoids : PyVal → Bool
-  | .elem e => elemAvoids e
-  | .dict kvs => kvsAvoid kvs
-def kvsAvoid : List (Text × PyVal) → Bool
-  | [] => true
-  | (_, v) :: rest => valAvoids v && kvsAvoid rest
-end
-
-def ctxAvoids : Ctx → Bool
-  | .fromDict d => kvsAvoid d
-  | .values d => kvsAvoid d
-  | .binding _ v => valAvoids v
-  | .list xs => elemsAvoid xs
-  | .setItem d _ v => kvsAvoid d && valAvoids v
-  | .setItemOn d _ _ v => kvsAvoid d && valAvoids v
 
 end Nima
